@@ -39,7 +39,9 @@ def run(c):
     okg, _ = c.go_build()
     cases = os.path.join(c.work, "c12.cases")
     cov = {"rule": "configs: grid of small (lo,hi,s) with every v in 0..hi*9/8+2 plus -1; random configs up to 2^41 "
-                   "with values at bucket/sub-bucket boundaries +-1; record sequences with out-of-range values. "
+                   "with values at bucket/sub-bucket boundaries +-1; record sequences with out-of-range values (runs of equal "
+                   "neighbours through RecordValues); sequences of RecordCorrectedValue(v, e) calls with e dividing v exactly, by one more and "
+                   "one less, e <= 0, v = e, v above the range and negative (oracle c12_ok_corr). "
                    "non-trivial = value within 1 of an end of its equivalence range or >= hi, or a record sequence; "
                    "distinct by (config, value) / sequence text",
            "evaluations": 0, "distinct_nontrivial": 0, "samples": [], "disagreements_checked": 0}
